@@ -10,10 +10,19 @@ SimInit == dts = DTS /\ shape = [w \in W |-> "ok"] /\ InitRest /\ hist = ""
 Tag(s, w) == hist' = hist \o s \o ToString(w) \o " "
 SimNext ==
   \/ \E w \in W : WSend(w) /\ Tag("S", w)
-  \/ \E w \in W : (WReturn(w) \/ WCreate(w) \/ WCreateRefused(w) \/ WRegister(w) \/ WDrop(w)) /\ UNCHANGED hist
+  \/ \E w \in W : WCreate(w) /\ Tag("C", w)
+  \/ \E w \in W : WRegister(w) /\ Tag("G", w)
+  \/ \E w \in W : (WReturn(w) \/ WCreateRefused(w) \/ WDrop(w)) /\ UNCHANGED hist
+  \/ Sigint /\ Tag("X", 0)
+  \/ HLock /\ UNCHANGED hist
+  \/ HClear /\ Tag("K", 0)
+  \/ HNtfLock /\ UNCHANGED hist
+  \/ HRemove /\ Tag("V", 0)
+  \/ HFlag /\ Tag("F", 0)
   \/ \E w \in W : CDequeue(w) /\ Tag("R", w)
   \/ \E w \in W : CDisc(w) /\ Tag("R", w)
-  \/ (CEnterSel \/ CNone \/ CProcess \/ CAfter \/ ProcExit \/ CExitEarly) /\ UNCHANGED hist
+  \/ (CEnterSel \/ CNone \/ CProcess \/ CAfter \/ CExitEarly) /\ UNCHANGED hist
+  \/ ProcExit /\ Tag("E", 0)
   \/ \E w \in W : CPrint /\ np'[w] # np[w] /\ Tag("P", w)
 SimSpec == SimInit /\ [][SimNext]_svars
 DumpAtEnd == exited => PrintT(<<"PLAN", hist>>)
